@@ -346,13 +346,88 @@ class Lane:
                            "transaction read from the store: id differs from sha256d(encoding)", w)
         store.close()
 
+    def lane_d_derived(self, n):
+        """objects DERIVED by the repository's own functions from objects that came from bytes (signing a decoded unsigned
+        transaction, signing a decoded signed one again, the to-be-signed form of a decoded transaction)"""
+        import hashlib
+        import skepticoin.datatypes as dt
+        import skepticoin.signing as sg
+        import skepticoin.wallet as wm
+        rng, g = self.rng, self.g
+
+        def sha256d(b):
+            return hashlib.sha256(hashlib.sha256(b).digest()).digest()
+        wallet = wm.Wallet.empty()
+        nodekit_quiet(wallet.generate_keys, 4)
+        pubs = list(wallet.keypairs.keys())
+        for k in range(n):
+            utxo = {}
+            ins = []
+            for _ in range(rng.choice([1, 2, 3])):
+                r = dt.OutputReference(objgen.rb(rng, 32), rng.choice([0, 1, 63, 64, 200]))
+                utxo[r] = dt.Output(rng.randrange(1, 1 << 40), sg.SECP256k1PublicKey(rng.choice(pubs)))
+                ins.append(dt.Input(r, sg.SignableEquivalent()))
+            outs = [dt.Output(rng.randrange(1, 1 << 40), g.public_key(rng)) for _ in range(rng.choice([1, 2]))]
+            unsigned = dt.Transaction(ins, outs)
+            self.derived_case(wallet, utxo, unsigned)
+
+    def derived_case(self, wallet, utxo, unsigned):
+        import hashlib
+        import skepticoin.datatypes as dt
+        import skepticoin.wallet as wm
+
+        def sha256d(b):
+            return hashlib.sha256(hashlib.sha256(b).digest()).digest()
+        base = {"lane": "D-derived", "unsigned": unsigned.serialize().hex(),
+                "keys": [[pk.hex(), sk.hex()] for pk, sk in wallet.keypairs.items()],
+                "utxo": [[r.hash.hex(), r.index, o.value, o.public_key.public_key.hex()] for r, o in utxo.items()]}
+        if True:
+            routes = {}
+            try:
+                from_bytes = dt.Transaction.deserialize(unsigned.serialize())
+                routes["signed-from-memory"] = wm.sign_transaction(wallet, utxo, unsigned)
+                routes["signed-from-bytes"] = wm.sign_transaction(wallet, utxo, from_bytes)
+                routes["to-be-signed-form-of-decoded"] = from_bytes.signable_equivalent()
+                again = dt.Transaction.deserialize(routes["signed-from-bytes"].serialize())
+                routes["signed-again-from-bytes"] = wm.sign_transaction(wallet, utxo, again)
+                routes["to-be-signed-form-of-decoded-signed"] = again.signable_equivalent()
+            except Exception as e:
+                self.v("derived-object-route-raises", "deriving from a decoded transaction raised %r" % (e,), dict(base, bytes=""))
+                return
+            for name, t in routes.items():
+                self.c["D_ids_checked"] = self.c.get("D_ids_checked", 0) + 1
+                enc = t.serialize()
+                w = dict(base, route=name, bytes=enc.hex())
+                if t.hash() != sha256d(enc):
+                    self.v("id-is-not-hash-of-canonical-encoding:Transaction-" + name,
+                           "transaction obtained by route '%s': id differs from sha256d(its encoding)" % name, w)
+                if dt.Transaction.deserialize(enc).hash() != t.hash():
+                    self.v("same-content-two-ids:Transaction-" + name,
+                           "a node decoding the bytes of the transaction obtained by route '%s' knows it under another id" % name, w)
+
     def result(self):
+        from skv import idhook
+        idhook.report(self.v, self.c)
         return {"evaluations": self.c["A_values"] + self.c["B_decoder_calls"], "digests": sorted(self.digests),
                 "violations": self.viol, "counters": self.c, "samples": self.samples}
 
 
+def _rebuild_unsigned(b):
+    """an in-memory (not 'from bytes') unsigned transaction with the given encoding"""
+    import skepticoin.datatypes as dt
+    t = dt.Transaction.deserialize(b)
+    return dt.Transaction(list(t.inputs), list(t.outputs))
+
+
+def nodekit_quiet(fn, *a):
+    from skv import nodekit
+    return nodekit.quiet(fn, *a)
+
+
 def run_shard(spec):
     env.boot(fake_scrypt=False, horizon_off=False)
+    from skv import idhook
+    idhook.install()
     if "replay" in spec:
         w = spec["replay"]
         lane = Lane({"seed": 0, "shard": 0})
@@ -366,6 +441,20 @@ def run_shard(spec):
             d = ms.Message if cname.startswith("Message/") else dec[cname]
             f = io.BytesIO(b)
             lane.roundtrip(d.stream_deserialize(f), d, cname)
+        elif w.get("lane") == "D-derived":
+            import skepticoin.datatypes as dt
+            import skepticoin.signing as sg
+            import skepticoin.wallet as wm
+            wallet = wm.Wallet.empty()
+            for pk, sk in w["keys"]:
+                wallet.keypairs[bytes.fromhex(pk)] = bytes.fromhex(sk)
+            utxo = {dt.OutputReference(bytes.fromhex(h), i): dt.Output(v, sg.SECP256k1PublicKey(bytes.fromhex(pk)))
+                    for h, i, v, pk in w["utxo"]}
+            lane.derived_case(wallet, utxo, _rebuild_unsigned(bytes.fromhex(w["unsigned"])))
+        elif w.get("lane") == "id-hook":
+            import skepticoin.datatypes as dt
+            t = dt.Transaction.deserialize(b)
+            t.hash()
         else:
             lane.offer(b, w.get("mutation", "replay"))
         return lane.result()
@@ -375,6 +464,7 @@ def run_shard(spec):
     lane.lane_b(220 if quick else 6000)
     lane.lane_c_store(40 if quick else 600)
     lane.lane_long_lists(2 if quick else 40)
+    lane.lane_d_derived(25 if quick else 400)
     return lane.result()
 
 
@@ -392,7 +482,8 @@ def finalize(m, tier):
                    ("vlq textbook-minimal alternatives offered", c.get("B_by_mutation", {}).get("vlq-minimal", 0), 300),
                    ("textbook-minimal list prefixes offered", c.get("B_minimal_list_prefix", 0), 40),
                    ("ids checked", c.get("C_ids_checked", 0), 5000),
-                   ("ids from store", c.get("C_ids_from_store", 0), 100), ("long_lists", c.get("long_lists", 0), 20),
+                   ("ids from store", c.get("C_ids_from_store", 0), 100), ("ids of derived objects", c.get("D_ids_checked", 0), 1000),
+                   ("id_invariant_evaluations", c.get("id_invariant_evaluations", 0), 5000), ("long_lists", c.get("long_lists", 0), 20),
                    ("count-altered strings", c.get("B_by_mutation", {}).get("count-altered", 0), 60)],
         "extra": {},
     }
